@@ -1128,7 +1128,7 @@ func (n *normalizer) expandMode(call *ast.CallExpr, st *inlState, tail bool) (pr
 	for k, v := range constParams {
 		inner.consts[k] = v
 	}
-	if len(inner.consts) > 0 {
+	if len(inner.consts) > 0 && os.Getenv("STORAGECHECK_NOFOLD") == "" {
 		if n.foldConstParams(cb, inner.consts) > 0 && n.foldLeftUnused(cb) {
 			// an arm that was dropped held the only use of a local: leave this body as it is
 			cb = n.clone(fd.Body).(*ast.BlockStmt)
